@@ -145,4 +145,65 @@ def optAnd {α : Type} (o : Option α) (k : α → Bool) : Bool :=
   | some a => k a
   | none => true
 
+/-! ### character cursors (the pointer subset of tools/x2l_ex.py / x2l_st.py)
+
+Every `const char*` / `const unsigned char*` value of a translated function points into ONE immutable byte
+array `buf` (the array INCLUDES its terminating NUL, if it has one); the Lean value of the pointer is its
+index, an `Int`.  Forming a pointer outside `[0, buf.length]` (`ptrOk`: one past the end is allowed) and
+reading outside `[0, buf.length)` (`inB`) are undefined behaviour: they are conjuncts of `f_defined`, never
+given a value the proofs could rely on (`rdU` of an index outside the array is 0 only to make it total). -/
+
+/-- the byte array all character pointers of a translated function point into -/
+abbrev Buf := List UInt8
+
+/-- `i` is the index of an element: `*p` may be read -/
+def inB (b : Buf) (i : Int) : Bool := decide (0 ≤ i) && decide (i < (b.length : Int))
+
+/-- `i` is a pointer value that may be formed: an element or one past the end -/
+def ptrOk (b : Buf) (i : Int) : Bool := decide (0 ≤ i) && decide (i ≤ (b.length : Int))
+
+/-- `*p` through a `const unsigned char*` -/
+def rdU (b : Buf) (i : Int) : Int := ((b.getD i.toNat 0).toNat : Int)
+
+/-- `*p` through a `const char*`: `char` is SIGNED on the platform the library is checked on (x86-64 gcc/clang) -/
+def rdS (b : Buf) (i : Int) : Int := if rdU b i < 128 then rdU b i else rdU b i - 256
+
+/-- the pointer is used as a C string (`std::string + p`, `std::string{p}`): there is a NUL at or after it
+    inside the array, so that `strlen` stays in bounds -/
+def cstrOk (b : Buf) (i : Int) : Bool := inB b i && (b.drop i.toNat).contains 0
+
+/-- A statement sequence in the middle of a function translated in JOIN style (functions with character
+    cursors): it either falls through with the variables it assigned (`next`) or ends the call (`exit`:
+    return / throw / a loop out of fuel).  A loop `f.loop_k fuel buf vars : Flow σ α ρ` delivers the variables
+    it modifies. -/
+inductive Flow (σ α ρ : Type) where
+  | next (a : α)
+  | exit (o : Outcome σ ρ)
+
+/-- what follows inside another statement sequence -/
+def Flow.bind {σ α β ρ : Type} (f : Flow σ α ρ) (k : α → Flow σ β ρ) : Flow σ β ρ :=
+  match f with
+  | .next a => k a
+  | .exit o => .exit o
+
+/-- what follows the call of another translated function with effects on the same state (the cursor cell): its
+    exception / lack of fuel ends the caller too -/
+def Flow.call {σ α β ρ : Type} (o : Outcome σ α) (k : σ → α → Flow σ β ρ) : Flow σ β ρ :=
+  match o with
+  | .normal t r => k t r
+  | .thrown e t => .exit (.thrown e t)
+  | .nofuel => .exit .nofuel
+
+/-- what follows up to the end of the function -/
+def Flow.seq {σ α ρ : Type} (f : Flow σ α ρ) (k : α → Outcome σ ρ) : Outcome σ ρ :=
+  match f with
+  | .next a => k a
+  | .exit o => o
+
+/-- definedness of what follows: only looked at when control falls through -/
+def Flow.andThen {σ α ρ : Type} (f : Flow σ α ρ) (k : α → Bool) : Bool :=
+  match f with
+  | .next a => k a
+  | .exit _ => true
+
 end Osmium.CxxSem
